@@ -26,6 +26,9 @@ EXTENDS Naturals, FiniteSets, TLC, Json
 
 CONSTANTS Replies,     \* set of [id, L (declared length), body (bytes that follow), ok (body begins with "OK")]
           Delays,      \* "none" | "short" (< timeout) | "long" (> timeout) before the server sends
+          Prompts,     \* "fast" | "slow": the conversation (password prompt) answers at once / takes longer than the timeout
+          DeadlineFrom,\* "io": the time limit applies to each wait on the socket (the code) | "init": one deadline armed before
+                       \* the prompt - a slow conversation leaves a negative select timeout (EINVAL), the loop spins
           EofCheck, WriteMode, EmitEdges
 
 VARIABLES srv,    \* the server's script: [reachable, reply, cut, delay, after, staleErrno]
@@ -38,12 +41,15 @@ Need(r) == 2 + Min(r.L, 256)                     \* bytes the module wants to se
 Total(r) == 2 + r.body
 Cuts(r) == {k \in {0, 1, 2, 3, 4, Need(r) - 1, Need(r), Need(r) + 1, Total(r)} : k <= Total(r)}
 
-Scripts == {[reachable |-> FALSE, reply |-> r, cut |-> 0, delay |-> "none", after |-> "close", staleErrno |-> e, reads |-> TRUE]
+Scripts == {[reachable |-> FALSE, reply |-> r, cut |-> 0, delay |-> "none", after |-> "close", staleErrno |-> e, reads |-> TRUE, prompt |-> "fast"]
                 : r \in {CHOOSE x \in Replies : TRUE}, e \in BOOLEAN}
-      \cup {[reachable |-> TRUE, reply |-> r, cut |-> k, delay |-> d, after |-> a, staleErrno |-> e, reads |-> TRUE]
+      \cup {[reachable |-> TRUE, reply |-> r, cut |-> k, delay |-> d, after |-> a, staleErrno |-> e, reads |-> TRUE, prompt |-> "fast"]
                 : r \in Replies, k \in UNION {Cuts(x) : x \in Replies}, d \in Delays, a \in {"close", "stall"}, e \in BOOLEAN}
+      \* the user takes longer over the password than the module's timeout (servers that answer without delay)
+      \cup {[reachable |-> TRUE, reply |-> r, cut |-> k, delay |-> "none", after |-> a, staleErrno |-> FALSE, reads |-> TRUE, prompt |-> p]
+                : r \in Replies, k \in UNION {Cuts(x) : x \in Replies}, a \in {"close", "stall"}, p \in Prompts \ {"fast"}}
       \* a server that accepts, does not read the request, sends (part of) a negative reply or nothing, and closes
-      \cup {[reachable |-> TRUE, reply |-> r, cut |-> k, delay |-> "none", after |-> "close", staleErrno |-> FALSE, reads |-> FALSE]
+      \cup {[reachable |-> TRUE, reply |-> r, cut |-> k, delay |-> "none", after |-> "close", staleErrno |-> FALSE, reads |-> FALSE, prompt |-> "fast"]
                 : r \in {x \in Replies : ~x.ok}, k \in UNION {Cuts(x) : x \in Replies}}
 
 \* what the property demands
@@ -58,6 +64,7 @@ Connect == /\ pc = "connect"
            /\ IF srv.reachable THEN pc' = "send" /\ UNCHANGED rc ELSE pc' = "done" /\ rc' = "unavail"
            /\ UNCHANGED <<srv, got>>
 Send == /\ pc = "send"            \* the four parts (socket buffers absorb them) ...
+        /\ ~(DeadlineFrom = "init" /\ srv.prompt = "slow")      \* (wrong design: the deadline has passed, select fails, the loop spins)
         /\ \/ pc' = "read" /\ UNCHANGED rc
            \* ... unless the server has closed without reading: a later part hits a closed connection
            \/ /\ ~srv.reads
